@@ -73,6 +73,7 @@ def skip_map(src):
 
 class Source:
     def __init__(self, text, name="<src>"):
+        self.shadowed = []
         self.text = text
         self.name = name
         self.mask = skip_map(text)
@@ -180,7 +181,35 @@ class Source:
             cands.append(it)
         if len(cands) != 1:
             raise AnchorLost(f"anchor lost: fn {mod}|{impl}|{name}: {len(cands)} candidates in {self.name}")
-        return cands[0]
+        it = cands[0]
+        # method resolution (rule R24): `x.name(..)` resolves to an inherent method of the type before any trait method, so when the
+        # function asked for is a trait method and the same module path holds an inherent method of that name on the same type, the
+        # inherent one is what the crate's callers run and is the text that gets the contract
+        impls = [h for h in it['path'] if header_kind(h) in ('impl', 'trait')]
+        if impls and header_kind(impls[-1]) == 'impl':
+            m = re.search(r'\bfor\s+(?:\w+::)*([A-Za-z_]\w*)\b(?:\s*<[^{]*>)?\s*(?:where\b.*)?$', norm_header(impls[-1]))
+            if m:
+                sh = self.inherent_fn(m.group(1), name, [h for h in it['path'] if header_kind(h) == 'mod'])
+                if sh is not None:
+                    self.shadowed.append(f"{m.group(1)}::{name}")
+                    return sh
+        return it
+
+    def inherent_fn(self, type_name, name, mods=None):
+        """the inherent method `name` of `type_name` (impl block without a trait), or None; mods: restrict to this module path"""
+        for jt in self.index():
+            if jt['kind'] != 'fn' or fn_name(jt['header']) != name:
+                continue
+            ji = [h for h in jt['path'] if header_kind(h) in ('impl', 'trait')]
+            if not ji or header_kind(ji[-1]) != 'impl':
+                continue
+            h = norm_header(ji[-1])
+            if re.search(r'\bfor\b', h) or not re.match(r'impl(\s*<[^>]*>)?\s+(?:\w+::)*' + re.escape(type_name) + r'\b', h):
+                continue
+            if mods is not None and [x for x in jt['path'] if header_kind(x) == 'mod'] != mods:
+                continue
+            return jt
+        return None
 
     def find_item(self, mod, kind, name_re):
         cands = []
